@@ -23,7 +23,7 @@ func sortedPairsString(pairs []Pair) string {
 		pairStrs = append(pairStrs, pairStr)
 	}
 
-	sort.Slice(
+	sort.SliceStable(
 		pairStrs,
 		func(i, j int) bool { return pairStrs[i].k < pairStrs[j].k },
 	)
@@ -48,7 +48,7 @@ func sortedPairsRepr(pairs []Pair) string {
 		pairStrs = append(pairStrs, pairStr)
 	}
 
-	sort.Slice(
+	sort.SliceStable(
 		pairStrs,
 		func(i, j int) bool { return pairStrs[i].k < pairStrs[j].k },
 	)
